@@ -133,6 +133,11 @@ def run(F, cfg, inp):
     w.reset()
     w.set_val(w)
     ob.update(qw=O.snap(w.val), stw=_st(w))
+    # the same value stored in a new object built next to a reference that overflowed and was inexact in its own past
+    ref = _mk(F, cfg)
+    ref.status['overflow'] = ref.status['underflow'] = ref.status['inaccuracy'] = True
+    u = F.Fxp(vf, like=ref)
+    ob.update(qu=O.snap(u.val), stu=_st(u))
     return ob
 
 
@@ -179,7 +184,8 @@ def post(cfg, inp, ob):
     if 'qi' in ob:
         out += [('idem_int_code', T.icmp(O.cells(ob['qi'])[0], c, '==')), ('idem_int_noflag', _noflags(ob['sti']))]
     out += [('restore_own_value_code', T.icmp(O.cells(ob['qz'])[0], c, '==')), ('restore_own_value_noflag', _noflags(ob['stz'])),
-            ('restore_self_code', T.icmp(O.cells(ob['qw'])[0], c, '==')), ('restore_self_noflag', _noflags(ob['stw']))]
+            ('restore_self_code', T.icmp(O.cells(ob['qw'])[0], c, '==')), ('restore_self_noflag', _noflags(ob['stw'])),
+            ('like_reference_code', T.icmp(O.cells(ob['qu'])[0], c, '==')), ('like_reference_noflag', _noflags(ob['stu']))]
     return out
 
 
